@@ -921,6 +921,10 @@ def binary_e_fn(
 ) -> Union[int, float]:
     if isinstance(x, int) and isinstance(y, int):
         if y >= 0:
+            if y > 400:
+                # far beyond the float range: let math.pow() report the
+                # overflow instead of building an enormous integer
+                return x * math.pow(10, y)
             for i in range(y):
                 x = x * 10
             return x
